@@ -102,6 +102,8 @@ Lemma skel_wset_eq w i n : skel (wset w i n) i = Some (n_parent n, kids n).
 Proof. unfold skel, wset. cbn. rewrite upd_eq. reflexivity. Qed.
 Lemma skel_wset_neq w i n x : x <> i -> skel (wset w i n) x = skel w x.
 Proof. intros H. unfold skel, wset. cbn. rewrite upd_neq by auto. reflexivity. Qed.
+Lemma roots_wset w i n : roots (wset w i n) = roots w. Proof. reflexivity. Qed.
+Lemma next_wset w i n : w_next (wset w i n) = w_next w. Proof. reflexivity. Qed.
 Lemma upd1_wset w i n : upd1 w (wset w i n) i.
 Proof. repeat split; auto. intros x Hx. apply skel_wset_neq. auto. Qed.
 
